@@ -122,7 +122,9 @@ def string_cases(st):
 
 PLANTED = ["Label/a$b", "(Red, Label/a$b)", "Blue, (Red, (Label/ab$))", "Def/Vt/a$b", "Red, Def/Vt/ab$", "(Def/Vt/$ab, Blue)",
            "(Def-expand/Vt/a$b, (Label/a$b, Blue))", "Red, (Def-expand/Vt/ab$, (Label/ab$, Blue)), Green",
-           "Re$d", "Blue, (Gre$en)", "Green, Label/xy$"]
+           "Re$d", "Blue, (Gre$en)", "Green, Label/xy$",
+           # a colon earlier in the same tag (clock times, unknown prefixes) must not shift the pointer
+           "Item/ab:cd$", "Item/Started-12:30:15/x$y", "Foo:bar$", "Red, (Item/a:b:c$d, Blue)", "Item/$ab:cd"]
 
 
 def planted_check(rec, st):
